@@ -163,7 +163,7 @@ PLAN = {
         level_text="Model-based (stateful) property testing: the history is one shrinkable value, the model invariant runs after every step. Exploration level.",
         level_note="The oracle is driven by the errors the harness' callbacks actually returned (not by a firing specification), so it holds for any callback schedule; errors not created by the harness are ignored except the documented misuse error. Caller-side aliasing of slices passed in or handed out is not asserted.",
         technique="model-based stateful property testing (rapid) with an invariant after every step + bounded exhaustive enumeration of container histories",
-        quick=[rapid("containers", "TestPropA", 10000), rapid("tables", "TestPropB", 5000), enum("enumA", "TestEnumA", env={"VERIF_C11_ENUM_LEN": 5})],
+        quick=[rapid("containers", "TestPropA", 10000), rapid("tables", "TestPropB", 20000), enum("enumA", "TestEnumA", env={"VERIF_C11_ENUM_LEN": 5})],
         thorough=[rapid("containers", "TestPropA", 200000, shards=8), rapid("tables", "TestPropB", 150000, shards=16), enum("enumA", "TestEnumA", env={"VERIF_C11_ENUM_LEN": 6}, timeout=3000)],
     ),
     "C12": dict(
@@ -279,7 +279,7 @@ PLAN = {
         level_note="Names whose first section equals (case-insensitively) a sub-package name are not generated; nothing is asserted about case variants of decoration names or about what follows a name that itself contains dots.",
         technique="model-based stateful property testing (rapid) with a differential oracle",
         quick=[rapid("prop", "TestProp", 750, shards=4)],
-        thorough=[rapid("prop", "TestProp", 2000, shards=16)],
+        thorough=[rapid("prop", "TestProp", 2000, shards=48)],
     ),
 }
 
